@@ -232,7 +232,7 @@ func c20Run(raw json.RawMessage, c *mc.Ctx) {
 			switch sp.Shape {
 			case 1:
 				for i := 0; i < n; i++ {
-					rows = append(rows, other("777", i), ours(i))
+					rows = append(rows, other([]string{"777", p.SoilID + "7"}[i%2], i), ours(i))
 				}
 			case 2:
 				for i := 0; i < n; i++ {
@@ -251,7 +251,7 @@ func c20Run(raw json.RawMessage, c *mc.Ctx) {
 			case 4:
 				rows = append(rows, other("000", 0))
 				for i := 0; i < n; i++ {
-					rows = append(rows, ours(i), other("555", i))
+					rows = append(rows, ours(i), other(p.SoilID+"0", i)) // an id that begins with ours
 				}
 			}
 			p.Files = map[string]string{"gw_" + p.ID + ".csv": "SID,Date,Level\n" + strings.Join(rows, "\n") + "\n"}
